@@ -82,6 +82,14 @@ fn gen_observable(rng: &mut Rng) -> Vec<String> {
             "emit(record(x = int)(x = \"s\"))",
             "emit(1 + \"s\")",
             "fail(\"custom\", {\"b\": 1, \"a\": set([2, 1])})",
+            // ties between equally distant candidates, several undefined names at once
+            "tie_name_a = 1\ntie_name_b = 2\ntie_name_d = 3\nemit(tie_name_c)",
+            "cand_xa = 1\ncand_xb = 2\ncand_xc = 3\ncand_xd = 4\ncand_xe = 5\ndef use_cand():\n    return cand_xz\nuse_cand()",
+            "emit(undef_q1)\nemit(undef_q2, undef_q3)\nemit([undef_q4 for _i in range(2)])",
+            "def never_called():\n    return [undef_r1, undef_r2, undef_r3, undef_r4, undef_r5]",
+            "st_tie = struct(fld_a = 1, fld_b = 2, fld_d = 3)\nemit(st_tie.fld_c)",
+            "def kw_tie(par_a = 1, par_b = 2, par_d = 3):\n    return par_a\nkw_tie(par_c = 5)",
+            "load(\"nonexistent_mod.star\", \"zz1\", \"zz2\")\nemit(zz1)",
         ];
         stmts.push(fails[rng.usize(fails.len())].to_owned());
     }
